@@ -216,7 +216,8 @@ impl Runner {
             return;
         }
         let pre = &case["pre"];
-        let mut st = build(pre);
+        // "fresh": the state as PushState::new() makes it (the specification's EmptyState / DefaultCfg)
+        let mut st = if case.get("fresh").is_some() { PushState::new() } else { build(pre) };
         // project(build(pre)) is logged as the pre-state: the trace validator checks it equals `pre`
         let mut first = Some(project(&st));
         let mut i = 0usize;
